@@ -439,6 +439,10 @@ def coordinator_unit(ctx):
     @contextlib.contextmanager
     def worker_pool(queue, process_item, worker_count):
         pool_args.update(queue=queue, process_item=process_item, worker_count=worker_count)
+        if not cells:
+            # the stop flag / first error / error count are not closure cells of run_function_on_graph (e.g. attributes of a state object):
+            # this contract's shared-variable discipline is stated on the cells - it does not apply, the engine stress and the probes decide
+            ctx.unsupported("the engine's shared state is not kept in closure cells of run_function_on_graph: the coordinator contract does not apply")
         ctx.check("pool-entered-after-shared-state-initialised",
                   bool(cells.get("stop") is False and cells.get("first_node_error", 0) is None and cells.get("error_count") == 0))
         g["pool"] = "in"
